@@ -10,6 +10,11 @@ Init == l \in 1..(IF Len(Trace) < Stride THEN Len(Trace) ELSE Stride)
 Next == l + Stride <= Len(Trace) /\ l' = l + Stride
 R == Trace[l]
 Upto == IF R.upto = 0 THEN Len(R.evs) ELSE R.upto
-HistoryOK == /\ LFirstBad(Missing, R.def, SubSeq(R.evs, 1, Upto), 1) = 0
+\* upto = 99999: a resource whose history ran while other resources of the pattern were changed too: only the
+\* end is observed - what get serves, before and after reopening, is the fold of the resource's own events
+ConcurrentOK == LET s == Served(LFold(Missing, R.def, R.evs, 1), R.def)
+                IN SameRes(R.last, s) /\ SameRes(R.reopened, s)
+HistoryOK == IF R.upto = 99999 THEN ConcurrentOK ELSE
+             /\ LFirstBad(Missing, R.def, SubSeq(R.evs, 1, Upto), 1) = 0
              /\ (R.upto = 0 => SameRes(R.reopened, R.last))     \* the same after close and reopen
 =============================================================================
